@@ -255,6 +255,8 @@ func (x *Exec) binop(a *activation, b *ssa.BasicBlock, i int, in *ssa.BinOp, fr 
 			}
 		} else if in.Op == token.ADD && ((l.pos && r.nk && r.n >= 0) || (r.pos && l.nk && l.n >= 0)) {
 			out.pos = true
+		} else if in.Op == token.SUB && l.pos && r.nk && r.n == 1 {
+			out.nn = true // (a value >= 1) - 1
 		}
 		fr.vals[in] = out
 		return false
@@ -293,6 +295,29 @@ func (x *Exec) binop(a *activation, b *ssa.BasicBlock, i int, in *ssa.BinOp, fr 
 		if l.sk && r.sk && (in.Op == token.EQL || in.Op == token.NEQ) {
 			fr.vals[in] = res(l.s == r.s)
 			return false
+		}
+		if in.Op == token.EQL || in.Op == token.NEQ {
+			// s == "" decided by the atoms of s
+			cst, oth := l, r
+			if !(cst.sk && cst.s == "") {
+				cst, oth = r, l
+			}
+			if cst.sk && cst.s == "" && oth.tag != "" {
+				v := AV{k: 'B', tri: 3, tag: "nonempty(" + oth.tag + ")"}
+				if !neg {
+					v.tag = "not " + v.tag
+				}
+				fr.vals[in] = v
+				return false
+			}
+			if cst.sk && cst.s == "" && oth.atoms != 0 && oth.atoms&^AStrings == 0 {
+				e, n := oth.atoms&AStrE != 0, oth.atoms&AStrN != 0
+				if neg {
+					e, n = n, e
+				}
+				fr.vals[in] = boolAV(e, n)
+				return false
+			}
 		}
 		fr.vals[in] = AV{k: 'B', tri: 3}
 		return false
@@ -395,6 +420,23 @@ func (x *Exec) cmpInts(op token.Token, l, r AV) AV {
 		t := cmpConst(op, 1, r.n) // any value >= 1 behaves alike against a bound <= 0
 		return boolAV(t, !t)
 	}
+	// a constant <= 0 against a value known to be >= 0
+	if l.nk && l.n <= 0 && (r.nn || r.pos) {
+		switch op {
+		case token.LEQ:
+			return boolAV(true, false)
+		case token.GTR:
+			return boolAV(false, true)
+		}
+	}
+	if r.nk && r.n <= 0 && (l.nn || l.pos) {
+		switch op {
+		case token.GEQ:
+			return boolAV(true, false)
+		case token.LSS:
+			return boolAV(false, true)
+		}
+	}
 	return AV{k: 'B', tri: 3}
 }
 
@@ -478,7 +520,12 @@ func (x *Exec) call(a *activation, b *ssa.BasicBlock, i int, in *ssa.Call, fr *f
 		}
 		return true
 	}
-	if callee.Pkg == x.c.SLib && callee.Blocks != nil && !strings.HasSuffix(x.c.file(callee.Pos()), "_string.go") {
+	if x.cli {
+		if handled, cont := x.modelCLI(a, b, i, in, callee, args, fr, h, p); handled {
+			return cont
+		}
+	}
+	if ((callee.Pkg == x.c.SLib && !x.cli) || (x.cli && callee.Pkg == x.c.SCLI)) && callee.Blocks != nil && !strings.HasSuffix(x.c.file(callee.Pos()), "_string.go") {
 		// inline
 		x.runUp(callee, args, h, p, &stackLink{fr: fr, up: a.up}, func(rets []AV, h2 *Heap, p2 pathInfo, fin *frame) {
 			f2 := fr.clone()
@@ -593,7 +640,7 @@ func (x *Exec) builtin(name string, in *ssa.Call, args []AV, fr *frame, h *Heap)
 	switch name {
 	case "len", "cap":
 		v := args[0]
-		out := AV{k: 'N'}
+		out := AV{k: 'N', nn: true}
 		switch v.k {
 		case 'S':
 			if v.sk {
